@@ -144,6 +144,37 @@ func raceChild(args []string) {
 			}
 		}(wi)
 	}
+	// fetch by BARE id (no fraction hint): the id is asked from every fraction whose range contains its MID - with
+	// several writers the ranges of neighbouring fractions overlap - and exactly the document must come back
+	bareFetch := func(docs []doc, why string) {
+		for lo := 0; lo < len(docs); lo += 200 {
+			part := docs[lo:min(lo+200, len(docs))]
+			bare := make([]seq.IDSource, len(part))
+			for i, d := range part {
+				bare[i] = seq.IDSource{ID: d.id()}
+			}
+			bodies, err := fetcher.FetchDocs(context.Background(), fm.GetAllFracs(), bare)
+			mu.Lock()
+			out.Fetches++
+			mu.Unlock()
+			if err != nil {
+				add("fetch-error", fmt.Sprintf("fetch by bare id (%s): %v", why, err))
+				return
+			}
+			for i, d := range part {
+				if i >= len(bodies) || string(bodies[i]) != string(d.body) {
+					n := 0
+					for _, f := range fm.GetAllFracs() {
+						if f.Contains(seq.MID(d.mid)) {
+							n++
+						}
+					}
+					add("fetch-bare-id", fmt.Sprintf("id %s (%s) fetched without a hint came back empty or with foreign bytes; %d fractions cover its MID", d.idStr(), why, n))
+					return
+				}
+			}
+		}
+	}
 	check := func(rng *vh.RNG, final bool) {
 		qi := rng.Intn(len(qs))
 		q := qs[qi]
@@ -237,6 +268,7 @@ func raceChild(args []string) {
 				break
 			}
 		}
+		bareFetch(docs, "returned by a search")
 	}
 	var swg sync.WaitGroup
 	for si := 0; si < *searchers; si++ {
@@ -280,6 +312,16 @@ func raceChild(args []string) {
 		if i == len(qs) {
 			time.Sleep(50 * time.Millisecond)
 		}
+	}
+	{ // every acknowledged document, by bare id, once the writers are idle
+		mu.Lock()
+		var ackedDocs []doc
+		for id := range acked {
+			ackedDocs = append(ackedDocs, submitted[id])
+		}
+		mu.Unlock()
+		sort.Slice(ackedDocs, func(i, j int) bool { return ackedDocs[i].rid < ackedDocs[j].rid })
+		bareFetch(ackedDocs, "acknowledged, writers idle")
 	}
 	out.Fractions = len(fm.GetAllFracs())
 	fm.Stop()
